@@ -454,7 +454,7 @@ impl Exec {
                 }
                 Ok(())
             }
-            Op::ExpiredWrite { k, past_ms, write } => {
+            Op::ExpiredWrite { k, past_ms, write, read_first } => {
                 let usable = |model: &Model| model.held.get(k).and_then(|entry| if entry.soft_deleted { None } else { entry.deadline }).filter(|deadline| *deadline > model.now && deadline.as_nanos() < (u64::MAX / 4) as u128);
                 if usable(&self.model).is_none() && !self.model.held.contains_key(k) {
                     self.exec_op(&Op::Put { k: *k, w: Some(WSel::Abs(7)), ttl: Some(TtlSel::Secs(2)) })?;
@@ -467,6 +467,7 @@ impl Exec {
                 self.clock.set(target.as_nanos() as u64);
                 self.stats.advances += 1;
                 self.stats.expired_unswept_writes += 1;
+                if *read_first { for kind in READ_KINDS { self.exec_read(kind, &[*k])?; } }
                 let retargeted = match (**write).clone() { Op::Put { w, ttl, .. } => Op::Put { k: *k, w, ttl }, Op::Upsert { value, w, ttl, .. } => Op::Upsert { k: *k, value, w, ttl }, _ => Op::Delete { k: *k } };
                 self.sweeper_pinned = self.sweeper_held;
                 let written = self.exec_op(&retargeted);
